@@ -480,7 +480,7 @@ where
 
 				let stream = BufReader::new(BufWriter::new(io.compat()));
 				let mut ws_builder = server.into_builder(stream);
-				ws_builder.set_max_message_size(server_cfg.max_response_body_size as usize);
+				ws_builder.set_max_message_size(server_cfg.max_request_body_size as usize);
 				let (sender, receiver) = ws_builder.finish();
 
 				let params = BackgroundTaskParams {
